@@ -1,6 +1,6 @@
 //! Witness search for the derived-node obligations of C01 (units pico_source / pico_gc):
 //! EVERY history of at most 5 steps (argument: another bound) over
-//!   set a := "ax" | "ay" | "qx",  set b := "1" | "2",
+//!   set a := "ax" | "ay" | "qx",  set b := "1" | "2"  (b is a singleton, read with get_singleton),
 //!   call first(a) | upper(a) | alpha(a) | describe(a) | combo(a, b),  collect garbage
 //! is run on the real pico; after every call the memoized value is compared with a
 //! from-scratch evaluation on the current sources. (Sources are always present: the
@@ -11,7 +11,7 @@
 use std::sync::atomic::{AtomicUsize, Ordering};
 
 use pico::{Database, SourceId, Storage};
-use pico_macros::{Db, Source, memo};
+use pico_macros::{Db, Singleton, Source, memo};
 
 /// how often each memoized body ran: first, upper, alpha, describe, combo
 static RUNS: [AtomicUsize; 5] = [AtomicUsize::new(0), AtomicUsize::new(0), AtomicUsize::new(0), AtomicUsize::new(0), AtomicUsize::new(0)];
@@ -25,6 +25,13 @@ struct TestDatabase {
 struct Input {
     #[key]
     pub key: &'static str,
+    pub value: String,
+}
+
+/// source b is a SINGLETON, read through `Database::get_singleton` (the other public reader;
+/// always present here, so the known finding about absent sources stays out of it)
+#[derive(Debug, Clone, PartialEq, Eq, Singleton)]
+struct Suffix {
     pub value: String,
 }
 
@@ -44,9 +51,9 @@ fn describe(db: &TestDatabase, id: SourceId<Input>) -> String {
     format!("{l}:{a}")
 }
 #[memo]
-fn combo(db: &TestDatabase, a: SourceId<Input>, b: SourceId<Input>) -> String {
+fn combo(db: &TestDatabase, a: SourceId<Input>) -> String {
     RUNS[4].fetch_add(1, Ordering::SeqCst);
-    format!("{}{}", *upper(db, a), db.get(b).value)
+    format!("{}{}", *upper(db, a), db.get_singleton::<Suffix>().expect("b is always present").value)
 }
 
 /// Reference for C02 (collection-free histories): a body runs exactly when it never ran, or a
@@ -86,7 +93,7 @@ fn run(history: &[usize]) -> Result<(), String> {
     let mut db = TestDatabase { storage: Storage::new_with_capacity(2.try_into().unwrap()) };
     let (mut av, mut bv) = (A_VALUES[0].to_string(), B_VALUES[0].to_string());
     let a = db.set(Input { key: "a", value: av.clone() });
-    let b = db.set(Input { key: "b", value: bv.clone() });
+    db.set(Suffix { value: bv.clone() });
     for (n, op) in history.iter().enumerate() {
         let f = av.chars().next().unwrap();
         let bad = |what: &str, got: String, want: String| {
@@ -94,12 +101,12 @@ fn run(history: &[usize]) -> Result<(), String> {
         };
         match *op {
             0..=2 => { if av != A_VALUES[*op] { model.va += 1; } av = A_VALUES[*op].to_string(); db.set(Input { key: "a", value: av.clone() }); }
-            3..=4 => { if bv != B_VALUES[*op - 3] { model.vb += 1; } bv = B_VALUES[*op - 3].to_string(); db.set(Input { key: "b", value: bv.clone() }); }
+            3..=4 => { if bv != B_VALUES[*op - 3] { model.vb += 1; } bv = B_VALUES[*op - 3].to_string(); db.set(Suffix { value: bv.clone() }); }
             5 => { let g = *first(&db, a); if g != f { return bad("first", g.to_string(), f.to_string()); } }
             6 => { let g = *upper(&db, a); let w = f.to_ascii_uppercase(); if g != w { return bad("upper", g.to_string(), w.to_string()); } }
             7 => { let g = *alpha(&db, a); let w = f.is_alphabetic(); if g != w { return bad("alpha", g.to_string(), w.to_string()); } }
             8 => { let g = describe(&db, a).clone(); let w = format!("{f}:{}", f.is_alphabetic()); if g != w { return bad("describe", g, w); } }
-            9 => { let g = combo(&db, a, b).clone(); let w = format!("{}{}", f.to_ascii_uppercase(), bv); if g != w { return bad("combo", g, w); } }
+            9 => { let g = combo(&db, a).clone(); let w = format!("{}{}", f.to_ascii_uppercase(), bv); if g != w { return bad("combo", g, w); } }
             _ => db.run_garbage_collection(),
         }
         if count_runs && (5..=9).contains(op) {
